@@ -414,6 +414,13 @@ fn c01_jobs(tier: Tier) -> Vec<HybJob> {
         c.flushers = 2;
         cfgs.push(c);
     }
+    // A size-based admission filter: small values are admitted, 2-page values are refused by the disk tier (a
+    // refused update must invalidate the older copy wherever that copy is: on disk or still in the write queue).
+    for woi in [true, false] {
+        let mut c = HybCfg::small(woi, true);
+        c.admission = crate::hyb::Admission::UpTo(1000);
+        cfgs.push(c);
+    }
     let opts = RunOpts {
         final_reads: true,
         final_restart: false,
